@@ -1,8 +1,9 @@
 SPECIFICATION Spec
 CONSTANTS
-  MaxLen = 3
+  Shapes <- ShapesT
+  Depth = 3
   Dump = TRUE
-  UseCache = TRUE
-
+INVARIANT ImplAgrees
+INVARIANT InRange
 INVARIANT Publish
 CHECK_DEADLOCK FALSE
